@@ -105,7 +105,7 @@ type c13Op struct {
 	Ifs    []string `json:"ifs,omitempty"`
 	If     int      `json:"if,omitempty"`
 	Reply  bool     `json:"reply,omitempty"` // packet is an ARP reply instead of a request
-	Dst    int      `json:"dst,omitempty"`   // 0 own MAC, 1 broadcast, 2 other MAC
+	Dst    int      `json:"dst,omitempty"`   // 0 own MAC, 1 broadcast, 2 other unicast MAC, 3..5 multicast MACs that are not the broadcast address
 	Target int      `json:"target,omitempty"`
 }
 
@@ -139,7 +139,7 @@ func genC13(rt *rapid.T) c13Case {
 			op.Kind = "packet"
 			op.If = rapid.IntRange(0, len(c13Ifaces)-1).Draw(rt, "if")
 			op.Reply = rapid.IntRange(0, 4).Draw(rt, "reply") == 0
-			op.Dst = rapid.SampledFrom([]int{0, 1, 1, 2}).Draw(rt, "dst")
+			op.Dst = rapid.SampledFrom([]int{0, 1, 1, 2, 3, 4, 5}).Draw(rt, "dst")
 			op.Target = rapid.IntRange(0, 2).Draw(rt, "target")
 		}
 		c.Ops = append(c.Ops, op)
@@ -258,7 +258,7 @@ func runC13(c c13Case, tr *vw.Trace) *vw.Violation {
 		case "packet":
 			name := c13Ifaces[op.If]
 			target := c13IPs[op.Target]
-			dst := []net.HardwareAddr{c13OurMAC, ethernet.Broadcast, c13OtherMAC}[op.Dst]
+			dst := []net.HardwareAddr{c13OurMAC, ethernet.Broadcast, c13OtherMAC, {0x01, 0x00, 0x5e, 0, 0, 1}, {0x33, 0x33, 0, 0, 0, 1}, {0xff, 0xff, 0xff, 0xff, 0xff, 0xfe}}[op.Dst]
 			aop := arp.OperationRequest
 			if op.Reply {
 				aop = arp.OperationReply
@@ -269,7 +269,7 @@ func runC13(c c13Case, tr *vw.Trace) *vw.Violation {
 			reason := w.resp[name].processRequest()
 			frames := pc.take()
 			want := false
-			if !op.Reply && op.Dst != 2 {
+			if !op.Reply && op.Dst <= 1 {
 				for _, advs := range model {
 					for _, a := range advs {
 						if a.ip == target && a.covers(name) {
